@@ -20,6 +20,9 @@ ALPHA1 = "0189aexXbBuUlLfFpP.+-"
 ALPHA2 = "01a'\"\\xLu8 ?n"
 ALPHA3 = "'\\xAf07u"      # character constants with hex / octal escapes in both letter cases
 ALPHA4 = "\"\\xAg08L"     # the same for string literals
+NONASCII = ["\u0663", "\uff13", "\u00e9", "\u00b2", "\u0967", "\uff21"]
+NONASCII_TEMPLATES = ["1e3", "1.5e+3f", "0x1p3", "0x1f", "017", "123u", "0b11", "1.3", ".3", "3.", "'\\3'", "'\\x3'", "'\\n'", "'a3'",
+                      "L'3'", '"\\3"', '"\\x3"', '"\\n"', '"a3"', 'u8"3"']
 MALFORMED = ["08", "0129", "''", "'a", "'ab", "\"abc", "'\\@'", "\"a\\@b\"", "/* c */", "// c", "'\\", "\"\\", "'\n'", "\"a\nb\"", "'a\nb'"]
 
 
@@ -77,8 +80,16 @@ def run(ctx):
     # numeric constants assembled from their grammatical parts, every part present or absent
     texts += [a + b + c + d + e + f for a in ("", "0", "0x", "0X", "0b", "1", "9") for b in ("", "1", "f", "8") for c in ("", ".")
               for d in ("", "8", "a") for e in ("", "e", "e1", "e+1", "p", "p1", "p-1", "P+") for f in ("", "f", "L", "u", "ul", "fl")]
+    # characters outside ASCII that Unicode calls digits / letters: in a literal they may only be
+    # ordinary members of a string or character constant, never digits, escapes, prefixes or suffixes
+    for tpl in NONASCII_TEMPLATES:
+        for i in range(len(tpl) + 1):
+            for c in NONASCII:
+                texts.append(tpl[:i] + c + tpl[i:])
+                if i < len(tpl):
+                    texts.append(tpl[:i] + c + tpl[i + 1:])
     texts = list(dict.fromkeys(t for t in texts if t))
-    ctx.rule("numeric constants assembled from prefix x digits x point x fraction x exponent x suffix with every part present or absent (8064 spellings); all strings of length <=%d over %r, <=%d over %r, <=%d over %r and %r (exhaustive): the real lexer returns the whole string as one literal token of class K iff Spec.Lex.classify says it is a well-formed literal of class K; the Lean scanner model must agree token for token; plus random long literals of every kind with random suffixes (class and Constant.type/value through the parser), plus malformed families that must be reported through the error callback" % (k1, ALPHA1, k2, ALPHA2, k3, ALPHA3, ALPHA4))
+    ctx.rule("numeric constants assembled from prefix x digits x point x fraction x exponent x suffix with every part present or absent (8064 spellings); 20 literal templates with one of 6 non-ASCII digits / letters substituted or inserted at every position; all strings of length <=%d over %r, <=%d over %r, <=%d over %r and %r (exhaustive): the real lexer returns the whole string as one literal token of class K iff Spec.Lex.classify says it is a well-formed literal of class K; the Lean scanner model must agree token for token; plus random long literals of every kind with random suffixes (class and Constant.type/value through the parser), plus malformed families that must be reported through the error callback" % (k1, ALPHA1, k2, ALPHA2, k3, ALPHA3, ALPHA4))
     py = pmap(impl_class, texts)
     sp = run_model([req("c10", t) for t in texts]) if ctx.model_available else None
     nontriv = 0
